@@ -216,6 +216,12 @@ func (s *Sched) Gate(point string) {
 			return
 		}
 	}
+	if strings.HasSuffix(point, ".exit") {
+		g.done = true
+		g.parked = ""
+		s.mu.Unlock()
+		return
+	}
 	if g.Inst != nil && g.Inst.Dead {
 		s.mu.Unlock()
 		<-s.dead
@@ -269,11 +275,15 @@ func (s *Sched) Enabled() []Action {
 				out = append(out, Action{g, "quit"})
 				break
 			}
-			if len(inst.Pending) > 0 {
-				out = append(out, Action{g, "deliver"})
-			}
+			// never make two cases of the handler's select ready at once: Go
+			// would choose between them at random. While the worker is
+			// blocked in its suspend send only that case is offered; the
+			// other order (block first) is reached by delivering before the
+			// worker is released from its worker.suspend gate.
 			if s.workerBlocked(inst) {
 				out = append(out, Action{g, "suspend"})
+			} else if len(inst.Pending) > 0 {
+				out = append(out, Action{g, "deliver"})
 			}
 		case "worker.select":
 			inst := g.Inst
